@@ -244,6 +244,10 @@ def inline_new_helpers(relpath: str, tree: ast.Module, ref: Dict) -> None:
         for st in tree.body:
             if isinstance(st, ast.ClassDef):
                 yield st.name + ".", st.body, st
+        # local closures: a def inside a function body, called by name inside that function (its free variables are the enclosing function's)
+        for fn in [x for x in ast.walk(tree) if isinstance(x, ast.FunctionDef)]:
+            if any(isinstance(y, ast.FunctionDef) for y in fn.body):
+                yield "\0local\0" + fn.name + ".", fn.body, None
     for _round in range(3):
         changed = False
         for prefix, body, cls in list(scopes()):
@@ -266,9 +270,9 @@ def inline_new_helpers(relpath: str, tree: ast.Module, ref: Dict) -> None:
                     hb = hb[1:]
                 if not hb:
                     continue
-                if any(isinstance(x, (ast.Yield, ast.YieldFrom, ast.FunctionDef, ast.AsyncFunctionDef, ast.Global, ast.Nonlocal, ast.Try, ast.While, ast.With)) for st in hb for x in ast.walk(st)):
+                if any(isinstance(x, (ast.Yield, ast.YieldFrom, ast.FunctionDef, ast.AsyncFunctionDef, ast.Global, ast.Nonlocal)) for st in hb for x in ast.walk(st)):
                     continue
-                if any(isinstance(x, ast.Return) for st in hb for x in ast.walk(st) if isinstance(st, ast.For)):
+                if any(isinstance(x, ast.Return) for st in hb for x in ast.walk(st) if isinstance(st, (ast.For, ast.While, ast.Try, ast.With))):
                     continue
                 sites = []
                 for n in ast.walk(tree):
@@ -347,6 +351,41 @@ def inline_new_helpers(relpath: str, tree: ast.Module, ref: Dict) -> None:
                             if call is not None:
                                 placements.append((lst, st, call, targets))
                 if len(placements) != len(sites):
+                    # a call nested in a simple statement (`out.append((h(a), ts))`, `x = f(h(a))`) is first bound to a fresh name in front of it
+                    placed = {id(c) for _, _, c, _ in placements}
+                    hoisted = False
+                    for p in ast.walk(tree):
+                        for fld in ("body", "orelse", "finalbody"):
+                            lst = getattr(p, fld, None)
+                            if not isinstance(lst, list):
+                                continue
+                            for k_, st in enumerate(lst):
+                                if not isinstance(st, (ast.Expr, ast.Assign, ast.AugAssign, ast.Return)):
+                                    continue
+                                inner = [c for c in ast.walk(st) if isinstance(c, ast.Call) and id(c) in site_ids and id(c) not in placed]
+                                if len(inner) != 1:
+                                    continue
+                                owner_names = _all_names(tree)
+                                tmp = _fresh("_h", owner_names)
+                                call = inner[0]
+
+                                class _R(ast.NodeTransformer):
+                                    def visit_Call(self, node):
+                                        if node is call:
+                                            return ast.copy_location(ast.Name(tmp, ast.Load()), node)
+                                        return self.generic_visit(node)
+                                new_st = _R().visit(st)
+                                bind = ast.copy_location(ast.Assign(targets=[ast.Name(tmp, ast.Store())], value=call), st)
+                                ast.fix_missing_locations(bind)
+                                lst[k_:k_ + 1] = [bind, new_st]
+                                hoisted = True
+                                break
+                            if hoisted:
+                                break
+                        if hoisted:
+                            break
+                    if hoisted:
+                        changed = True
                     continue
                 rets = [x for st in hb for x in ast.walk(st) if isinstance(x, ast.Return)]
                 plans = []
@@ -360,12 +399,36 @@ def inline_new_helpers(relpath: str, tree: ast.Module, ref: Dict) -> None:
                         break
                     tnames = {x.id for t in (targets or []) for x in ast.walk(t) if isinstance(x, ast.Name)}
                     h_locals = h_stored - set(params)
-                    clash = {n for n in h_locals if n in (_all_names(owner) - tnames)}
+                    def _loop_var_only(scope_stmts, name):
+                        st_ = [x for b_ in scope_stmts for x in ast.walk(b_) if isinstance(x, ast.Name) and x.id == name and isinstance(x.ctx, ast.Store)]
+                        ft = {id(y) for b_ in scope_stmts for lp in ast.walk(b_) if isinstance(lp, ast.For) for y in ast.walk(lp.target)}
+                        return bool(st_) and all(id(x) in ft for x in st_)
+                    # a loop variable used as a loop variable on both sides is rebound before every use: sharing the name changes nothing
+                    clash = {n for n in h_locals if n in (_all_names(owner) - tnames) and not (_loop_var_only(hb, n) and _loop_var_only(owner.body, n))}
                     ren = {}
                     taken = _all_names(owner) | h_locals
                     for n in sorted(clash):
                         ren[n] = _fresh(f"_{n}_", taken)
                     nb = copy.deepcopy(hb)
+                    # `return a, b` of helper locals into `x, y = h(..)`: the helper's locals are the caller's variables — rename instead of copying
+                    last = nb[-1]
+                    if targets is not None and len(targets) == 1 and len(rets) == 1 and isinstance(last, ast.Return) and last.value is not None:
+                        rv = last.value.elts if isinstance(last.value, ast.Tuple) else [last.value]
+                        tv = targets[0].elts if isinstance(targets[0], ast.Tuple) else [targets[0]]
+                        if len(rv) == len(tv) and all(isinstance(x, ast.Name) and x.id in h_locals for x in rv) and all(isinstance(x, ast.Name) for x in tv) \
+                                and len({x.id for x in rv}) == len(rv):
+                            direct = {x.id: t_.id for x, t_ in zip(rv, tv)}
+                            if not any(v in (_all_names(owner) - tnames) and False for v in direct.values()):
+                                for k_, v_ in direct.items():
+                                    ren[k_] = v_
+                                nb = nb[:-1]
+                                targets_local = None
+                            else:
+                                targets_local = targets
+                        else:
+                            targets_local = targets
+                    else:
+                        targets_local = targets
                     if ren:
                         for b_ in nb:
                             for x in ast.walk(b_):
@@ -379,7 +442,7 @@ def inline_new_helpers(relpath: str, tree: ast.Module, ref: Dict) -> None:
                         if len(_t) == 1 and isinstance(_t[0], ast.Name) and isinstance(value, ast.Name) and value.id == _t[0].id:
                             return ast.copy_location(ast.Pass(), _st)  # `x = x`: the helper's local was the caller's variable all along
                         return ast.copy_location(ast.Assign(targets=copy.deepcopy(_t), value=value), _st)
-                    conv = _tailify(nb, make_assign, targets is not None)
+                    conv = _tailify(nb, make_assign, targets_local is not None) if targets_local is not None or targets is None else list(nb)
                     if conv is None:
                         plans = None
                         break
@@ -669,3 +732,65 @@ def while_shapes(fn: ast.FunctionDef, ref_whiles: List[str]) -> None:
 
 def while_tests(fn: ast.FunctionDef) -> List[str]:
     return ["TRUE" if isinstance(n.test, ast.Constant) and n.test.value in (True, 1) else ast.dump(n.test) for n in ast.walk(fn) if isinstance(n, ast.While)]
+
+
+def unmerge_aliases(fn: ast.FunctionDef, want: List[str]) -> None:
+    """(u') `if c: a = E1 else: a = E2` followed by REST, where `a` is a local the reference function does not have and E1 / E2 are plain
+    names / attributes / constants, is `if c: REST[a := E1] else: REST[a := E2]` (undoes "merge the two direction arms by selecting the
+    containers first": an alias is the object itself)."""
+    def simple(e):
+        return all(isinstance(x, (ast.Name, ast.Attribute, ast.Constant, ast.Subscript, ast.Load, ast.Slice, ast.expr_context)) for x in ast.walk(e))
+    for _round in range(4):
+        stores: Dict[str, int] = {}
+        for n in ast.walk(fn):
+            if isinstance(n, ast.Name) and isinstance(n.ctx, (ast.Store, ast.Del)):
+                stores[n.id] = stores.get(n.id, 0) + 1
+        done = False
+        for p in ast.walk(fn):
+            for fld in ("body", "orelse", "finalbody"):
+                lst = getattr(p, fld, None)
+                if not isinstance(lst, list):
+                    continue
+                for i, st in enumerate(lst[:-1]):
+                    if isinstance(st, ast.Assign) and len(st.targets) == 1 and isinstance(st.targets[0], ast.Name) and isinstance(st.value, ast.IfExp) \
+                            and st.targets[0].id not in want and stores.get(st.targets[0].id) == 1 and simple(st.value.body) and simple(st.value.orelse):
+                        # `a = E1 if c else E2` is the same selection written as an expression
+                        st = ast.copy_location(ast.If(test=st.value.test, body=[ast.copy_location(ast.Assign(targets=[ast.Name(st.targets[0].id, ast.Store())], value=st.value.body), st)],
+                                                      orelse=[ast.copy_location(ast.Assign(targets=[ast.Name(st.targets[0].id, ast.Store())], value=st.value.orelse), st)]), st)
+                        ast.fix_missing_locations(st)
+                        lst[i] = st
+                        stores[st.body[0].targets[0].id] = 2
+                    if not (isinstance(st, ast.If) and st.orelse and st.body):
+                        continue
+                    arms = []
+                    for arm in (st.body, st.orelse):
+                        m = {}
+                        for a in arm:
+                            if isinstance(a, ast.Assign) and len(a.targets) == 1 and isinstance(a.targets[0], ast.Name) and simple(a.value):
+                                m[a.targets[0].id] = a.value
+                            else:
+                                m = None
+                                break
+                        arms.append(m)
+                    if arms[0] is None or arms[1] is None or set(arms[0]) != set(arms[1]) or not arms[0]:
+                        continue
+                    names = set(arms[0])
+                    if any(n in want or stores.get(n) != 2 for n in names):
+                        continue
+                    # the selected values must not be rebound by REST (an alias of `self.x` is only the same object while self.x is not re-assigned)
+                    rest = lst[i + 1:]
+                    vals = {ast.dump(v) for m in arms for v in m.values() if not isinstance(v, ast.Constant)}
+                    if any(isinstance(x, (ast.Attribute, ast.Name)) and isinstance(x.ctx, ast.Store) and ast.dump(x).replace("Store()", "Load()") in vals for s_ in rest for x in ast.walk(s_)):
+                        continue
+                    new = ast.If(test=st.test, body=_subst(copy.deepcopy(rest), arms[0]), orelse=_subst(copy.deepcopy(rest), arms[1]))
+                    ast.copy_location(new, st)
+                    lst[i:] = [new]
+                    ast.fix_missing_locations(new)
+                    done = True
+                    break
+                if done:
+                    break
+            if done:
+                break
+        if not done:
+            return
